@@ -485,12 +485,15 @@ def engUnary (s : St) (g : UnF) (tc ktypes : List String) (strict : Bool) (a : D
   if !tc.contains a.dt then throwErr "typeclass a"
   let (s, fo) ← handleFuncOpts s a.shape a.dt a.ap.o.col strict o
   let ksup := ktypes.contains a.dt
-  -- `prepDataUnary`: also when the destination's data order differs from the operand's (an increment tensor; a reuse
-  -- tensor has been given the operand's order flag by `handleFuncOpts`)
-  let useIter := a.requiresIterator || (match fo.reuse with | some r => r.requiresIterator || !sameOrd r a | none => false)
+  -- `prepDataUnary`: the destination first receives the operand's elements, so an operand that shares memory with it
+  -- through another access pattern is read from a copy (`operandFor`); iterators also when the destination's data
+  -- order differs from the operand's (an increment tensor; a reuse tensor has been given the operand's order flag by
+  -- `handleFuncOpts`)
+  let (s, aK) ← prepAliasT s a fo.reuse
+  let useIter := aK.requiresIterator || (match fo.reuse with | some r => r.requiresIterator || !sameOrd r aK | none => false)
   let addF : BinF := fun x y => .app2 "add" x y
   if useIter then
-    let ia ← a.itStream s
+    let ia ← aK.itStream s
     match fo.incr, fo.reuse with
     | true, some r =>
       let (s, c) ← a.clone s
@@ -500,7 +503,7 @@ def engUnary (s : St) (g : UnF) (tc ktypes : List String) (strict : Bool) (a : D
       pure ⟨s, some r, .reuse⟩
     | _, some r =>
       let ir ← r.itStream s
-      let s ← Dense.copyIterOffsets s r.win a.win (ir.map (·.1)) (ia.map (·.1))
+      let s ← Dense.copyIterOffsets s r.win aK.win (ir.map (·.1)) (ia.map (·.1))
       if !ksup then return ⟨s, some r, .failed⟩
       let s ← kUnIter s r.win g ir
       pure ⟨s, some r, .reuse⟩
@@ -522,7 +525,7 @@ def engUnary (s : St) (g : UnF) (tc ktypes : List String) (strict : Bool) (a : D
       let s ← eOp s r.win c.win addF
       pure ⟨s, some r, .reuse⟩
     | _, some r =>
-      let s ← Dense.rawCopy s r.win a.win
+      let s ← Dense.rawCopy s r.win aK.win
       if !ksup then return ⟨s, some r, .failed⟩
       let s ← kUn s r.win g
       pure ⟨s, some r, .reuse⟩
@@ -575,7 +578,9 @@ def engMap (s : St) (g : UnF) (mapTypes : List String) (a : Dense) (o : Opts) : 
         | (s, some m) => pure (s, some m, true)
         | (s, none) => let (s, c) ← a.clone s; pure (s, some c, true)
       else pure (s, none, false) : Res (St × Option Dense × Bool))
-  let useIter := a.requiresIterator || (match reuse with | some r => r.requiresIterator || !sameOrd r a | none => false)
+  -- `prepDataUnary` (see `engUnary`); a destination created above never shares memory with the operand
+  let (s, aK) ← prepAliasT s a reuse
+  let useIter := aK.requiresIterator || (match reuse with | some r => r.requiresIterator || !sameOrd r aK | none => false)
   let sup := mapTypes.contains a.dt
   let addF : BinF := fun x y => .app2 "add" x y
   if !fo.safe then
@@ -584,7 +589,7 @@ def engMap (s : St) (g : UnF) (mapTypes : List String) (a : Dense) (o : Opts) : 
     if !sup then throwErr "Cannot map fn" else
     if fo.incr && a.dt == "b" then throwErr "Cannot perform increment on bool" else
     let gi : UnF := if fo.incr then (fun x => .app2 "add" x (g x)) else g
-    let s ← mapKern useIter s a a.win gi
+    let s ← mapKern useIter s aK a.win gi
     mapFin a fo.reuse reuse created s
   else match fo.incr, fo.reuse with
     | true, some r =>
@@ -592,15 +597,15 @@ def engMap (s : St) (g : UnF) (mapTypes : List String) (a : Dense) (o : Opts) : 
       -- `E.AddIter(dataReuse, used, rit, ait)`
       let (s, c) ← a.clone s
       if !sup then throwErr "Cannot map fn" else
-      let s ← mapKern useIter s a c.win g
+      let s ← mapKern useIter s aK c.win g
       if a.dt == "b" then throwErr "Unsupported type for Add" else
-      let s ← (if useIter then do eOpIter s r.win c.win addF (← r.itStream s) (← a.itStream s) else eOp s r.win c.win addF)
+      let s ← (if useIter then do eOpIter s r.win c.win addF (← r.itStream s) (← aK.itStream s) else eOp s r.win c.win addF)
       mapFin a fo.reuse reuse created s
     | false, some r =>
       -- the destination is given the operand's elements, `fn` is then applied to them in place
       let s ← (if useIter then do
-                 Dense.copyIterOffsets s r.win a.win ((← r.itStream s).map (·.1)) ((← a.itStream s).map (·.1))
-               else Dense.rawCopy s r.win a.win)
+                 Dense.copyIterOffsets s r.win aK.win ((← r.itStream s).map (·.1)) ((← aK.itStream s).map (·.1))
+               else Dense.rawCopy s r.win aK.win)
       if !sup then return ⟨s, some r, .failed⟩
       let s ← mapKern useIter s r r.win g
       mapFin a fo.reuse reuse created s
